@@ -556,6 +556,12 @@ func addTree(
 			c.FileInfo.Mode = tree.FileInfo.Mode
 		}
 
+		// a directory the tree merely implies (it belongs to the filesystem
+		// package) leaves an explicitly declared directory alone
+		if present, ok := all[c.Destination]; ok && c.Type == TypeImplicitDir && present.Type == TypeDir {
+			return nil
+		}
+
 		// only implicit directories may be replaced, like everywhere else
 		if present, ok := all[c.Destination]; ok && present.Type != TypeImplicitDir {
 			return contentCollisionError(c, present)
